@@ -39,7 +39,7 @@ ASSUMPTIONS = [
     'streams of different packages by flow, _expand_phases on a data object shared with another stream, '
     'mix_from with fewer than two non-empty inlets or inlets of another package, '
     'view-to-view assignment whose source is a different view object over the receiver\'s own molar rows '
-    '(fixes_proposed/C11-5; enable with ALLOW_ALIASED_ASSIGN once repaired)',
+    '(repaired by a8461dd; ALLOW_ALIASED_ASSIGN is on)',
 ]
 TRUSTED = ['Lean 4.33 kernel', 'harness/props/c11.py + Driver/C11.lean', 'pint', 'generator reach (see histogram)']
 
@@ -57,7 +57,7 @@ RTOL, ATOL = 1e-9, 1e-12
 # Assigning a view from a *different* view object over the very same molar rows (flow-linked streams) wipes the data in
 # the code as found (fixes_proposed/C11-5).  Not generated until that repair is committed; then set this to True.
 import os
-ALLOW_ALIASED_ASSIGN = os.environ.get('C11_ALIASED', '0') == '1'
+ALLOW_ALIASED_ASSIGN = os.environ.get('C11_ALIASED', '1') == '1'   # repaired in /repo by a8461dd
 
 
 def setup():
